@@ -185,6 +185,15 @@ func classifyWrite(fn *core.Func, v *core.V, reg core.ByteSet) *writeSite {
 			ws.StartReg, ws.EndsReg = false, false // ( ) < > << >>
 		case key == "pdf.Format":
 			ws.StartReg, ws.EndsReg = true, true
+		case key == "pdf.doFormat" && len(call.Args) == 4:
+			// a recursive call handles the separator itself only if it is told that one is needed
+			ws.EndsReg = true
+			ws.StartReg = true
+			if id, ok := ast.Unparen(call.Args[3]).(*ast.Ident); ok && id.Name == "needSep" {
+				if _, isParam := info.ObjectOf(id).(*types.Var); isParam {
+					ws.StartReg = false
+				}
+			}
 		default:
 			return true
 		}
